@@ -479,6 +479,16 @@ func (txmp *TxMempool) addNewTransaction(wtx *WrappedTx, checkTxRes *abci.Respon
 		return
 	}
 
+	// The cache may have evicted the transaction while it is still in the pool:
+	// do not add it a second time.
+	if _, ok := txmp.txByKey[wtx.tx.Key()]; ok {
+		txmp.logger.Debug(
+			"transaction already in the pool, not adding it again",
+			"tx", fmt.Sprintf("%X", wtx.tx.Hash()),
+		)
+		return
+	}
+
 	priority := checkTxRes.Priority
 	sender := checkTxRes.Sender
 
